@@ -66,6 +66,11 @@ def run_case(rs, ctx):
         ctx.count("stressed_threaded_query_phases")
     else:
         qa = gen.run_ops(A, queries)
+    raised = [q for q, x in zip(queries, qa) if isinstance(x, list) and x and x[0] == "EXC"]
+    if raised and all(x[1] == "UnboundLocalError" and gen.k5_applies(A, q, "UnboundLocalError")
+                      for q, x in zip(queries, qa) if isinstance(x, list) and x and x[0] == "EXC"):
+        ctx.violation("%s: a Series query on a TreeBandit without any fitted tree raised UnboundLocalError" % gen.cfg_sig(cfg), wit, mech="K5")
+        return
     if any(isinstance(x, list) and x and x[0] == "EXC" for x in qa):
         ctx.violation("%s: a query raised: %r" % (gen.cfg_sig(cfg), [x for x in qa if isinstance(x, list) and x[:1] == ["EXC"]][:1]), wit)
         return
